@@ -14,7 +14,15 @@
 (* y is the LEXICAL year under the configured XSD version (Calendar.tla:   *)
 (* Astro / Lex), tz is minutes east of UTC or NoTZ.  All arithmetic is     *)
 (* done on timeline stamps <<days, seconds, micros>>.  The implicit        *)
-(* timezone is UTC (what elementpath uses without a dynamic context).      *)
+(* timezone is the constant ImplicitTZ (0 = UTC, what elementpath uses     *)
+(* without a dynamic context; the *-impl configurations use +05:30).       *)
+(* Laws (invariant Laws, action property LawsHold): value -> offset ->     *)
+(* value is the identity; d + dur - dur = d; d2 - d1 is the elapsed time;  *)
+(* d1 + (d2 - d1) = d2; comparison = order of the instants, antisymmetric, *)
+(* consistent with subtraction; adjust-to-timezone preserves the instant;  *)
+(* yearMonthDuration moves the month index exactly and clamps the day      *)
+(* (Jan 31 + P1M = Feb 28/29); 24:00:00 = next day 00:00:00; duration      *)
+(* algebra (k * d = repeated addition, total order).                       *)
 (*                                                                         *)
 (* Semantics: XSD 1.1 part 2, 3.3.7 and appendix E.3 (timeOnTimeline,      *)
 (* dateTimePlusDuration: months first, day clamped to the month length);   *)
